@@ -109,7 +109,7 @@ def main(tier, seed, args):
             mon = Classification(l, sym.var('inv_amount') if with_amount else None)
             sc = scen_common.ScenarioWithPc(c, cfg, [mon], pc)
             name = 'classify[invoice amount %s, amount field %s]' % ('present' if with_amount else 'absent', 'absent' if l is None else '%d bytes' % l)
-            ex = run_explorer(rep, c, sc, name, max_states=100000, time_budget=60 if tier == 'quick' else 600)
+            ex = run_explorer(rep, c, sc, name, max_states=100000, time_budget=300 if tier == 'quick' else 1800)
             scen_common.report(rep, PID, name, ex, sc)
             if rep.violations:
                 break
